@@ -240,6 +240,19 @@ func e2RunTrace(r *verifkit.Run, prop string, i int, agg *e2Agg, prefix string) 
 		}
 		r.Violate(f.Key, f.What, caseID, e2Witness(w, t, f, nil))
 	}
+	if prop == "C12" {
+		// The state machine treats the elapse of anything but the timer of its current timed
+		// step as a bug and panics: a timer it had cancelled (or one of another round) was
+		// still being listened to. That is C12's clause "a cancelled timer never reports
+		// elapsed", seen from the consumer's side.
+		for _, k := range w.panicKeys {
+			if strings.Contains(k, "handleTimerElapsed") {
+				r.Violate("C12:state-machine-acted-on-an-elapse-that-is-not-its-step-timer:"+k,
+					"the state machine kernel panicked in handleTimerElapsed: "+k, caseID,
+					map[string]any{"events": w.tail(80)})
+			}
+		}
+	}
 	if r.WantSample() && nStrat > 3 && len(t.evs) < 400 {
 		je := make([]map[string]any, 0, len(t.evs))
 		for _, e := range t.evs {
